@@ -207,6 +207,14 @@ def _check_admit(mon, tr, step):
         mon.violation("admit:from-outside-S", f"{case['variant']}: {admitted - S_mid} entered P without being candidates", pub)
     if S_post != S_mid - admitted:
         mon.violation("admit:S-inconsistent", f"{case['variant']}: S after admission {S_post} != {S_mid} - {admitted}", pub)
+    # nothing enters P anywhere else in the step (before, between or after the phases): compare with the step's own end state;
+    # VOGP_AD's refinement replaces nodes by their children in place and is C18's business
+    if case["variant"] != "VOGP_AD" and step.get("post") is not None and step["post"][1] is not None:
+        late = set(step["post"][1]) - set(P_post or set())
+        early = set(P_pre or set()) - set(step["pre"][1] or set())
+        if late or early:
+            mon.violation("admit:outside-the-admission-phase", f"{case['variant']} round {step['round_pre']}: designs {sorted(late | early)} entered P "
+                          f"{'after' if late else 'before'} the admission phase of the step", pub)
     if case["variant"] == "VOGP_AD":
         # the gate is recomputed by the monitor: it opens (and latches) in the first round in which every
         # candidate is at the maximum depth — the algorithm's own flag is not trusted
